@@ -336,7 +336,57 @@ func (s *storage) openAllPacks() error {
 	}
 
 	// If 1 or more pack files are found, open the last one read and write.
-	return s.openForWrite(n - 1)
+	if err := s.openForWrite(n - 1); err != nil {
+		return err
+	}
+	return s.repairTail(n - 1)
+}
+
+// repairTail truncates the pack file open for writing after its last
+// complete entry. A crash in the middle of an append leaves a partial
+// header or a header with a short body at the end of the file; without
+// this, later blobs are appended behind that garbage, and Reindex and
+// StreamBlobs can no longer parse the pack (or present the torn entry as a
+// blob). Only headers are read; bodies are seeked over.
+// This function is not thread safe, s.mu should be locked by the caller.
+func (s *storage) repairTail(n int) error {
+	fi, err := s.writer.Stat()
+	if err != nil {
+		return err
+	}
+	var (
+		fileSize = fi.Size()
+		goodEnd  int64 // end of the last complete entry
+		torn     bool
+	)
+	errTorn := errors.New("torn")
+	err = s.walkPack(false, n, func(_ int, _ blob.Ref, offset int64, size uint32) error {
+		if offset+int64(size) > fileSize {
+			torn = true
+			return errTorn
+		}
+		goodEnd = offset + int64(size)
+		return nil
+	})
+	if err != nil && !torn {
+		// Not something a torn append explains; leave the file alone.
+		log.Printf("diskpacked: not repairing %s: %v", s.filename(n), err)
+		return nil
+	}
+	if goodEnd == fileSize {
+		return nil
+	}
+	// Either the last entry's body is cut short, or walkPack hit the end
+	// of the file inside a header.
+	log.Printf("diskpacked: truncating %s from %d to %d bytes (partial entry left by a crash)", s.filename(n), fileSize, goodEnd)
+	if err := s.writer.Truncate(goodEnd); err != nil {
+		return err
+	}
+	if _, err := s.writer.Seek(goodEnd, io.SeekStart); err != nil {
+		return err
+	}
+	s.size = goodEnd
+	return nil
 }
 
 // Close index and all opened fds, with locking.
